@@ -122,6 +122,7 @@ func battery(clock string, embed, ext bool) *Scenario {
 		{K: "cflags", Arg: 2}, b, // CFLAGS reaches every C compilation
 		{K: "cflags", Arg: 0}, b,
 		{K: "edit-h", Pkg: 3}, b, // a header p3's C file includes from its own directory
+		{K: "edit-h", Pkg: 3, Arg: 1}, b, // a header that header includes from a sub-directory
 		{K: "edit-decl", Pkg: 1}, b, // a constant of a declaration-only package compiled into p1
 		{K: "edit-link", Pkg: 1}, b, // the target of a symbolic link among p1's source files
 	}
@@ -218,7 +219,7 @@ func (prop) Generate(rng *sim.Rng, tier string, runIndex int) driver.Scenario {
 		var st Step
 		switch r := rng.Intn(16); {
 		case p.HasH && rng.Intn(8) == 0:
-			st = Step{K: "edit-h", Pkg: pi}
+			st = Step{K: "edit-h", Pkg: pi, Arg: rng.Intn(2)}
 		case p.HasC && rng.Intn(16) == 0:
 			st = Step{K: "cflags", Arg: rng.Intn(3)}
 		case p.Decl && rng.Intn(8) == 0:
@@ -305,6 +306,7 @@ type pkgState struct {
 	declVer  int
 	cfgVer   int
 	hVal     int
+	hSub     int // value defined by the header in a sub-directory that the first header includes
 }
 
 type world struct {
@@ -363,7 +365,7 @@ func (w *world) line(i int) string {
 			c += 100 * w.cdef
 		}
 		if p.HasH {
-			c += s.hVal
+			c += s.hVal + s.hSub
 		}
 		parts = append(parts, fmt.Sprintf("c=%d", c))
 	}
@@ -652,7 +654,8 @@ func (w *world) writeAll() {
 			w.write(filepath.Join(d, "_wrap", "w2.c"), fmt.Sprintf("int %s_cval2(void) { return %d; }\n", p.Name, w.st[i].c2Val))
 		}
 		if p.HasH {
-			w.write(filepath.Join(d, "_wrap", "w.h"), fmt.Sprintf("#define HOFF %d\n", w.st[i].hVal))
+			w.write(filepath.Join(d, "_wrap", "w.h"), fmt.Sprintf("#include \"inc/v.h\"\n#define HOFF (%d + HSUB)\n", w.st[i].hVal))
+			w.write(filepath.Join(d, "_wrap", "inc", "v.h"), fmt.Sprintf("#define HSUB %d\n", w.st[i].hSub))
 		}
 		if p.HasTag {
 			w.write(filepath.Join(d, "variant_default.go"), "//go:build !alt\n\npackage "+p.Name+"\n\nconst variant = \"default\"\n")
@@ -1035,14 +1038,24 @@ func (prop) Run(scx driver.Scenario, ch *sim.Choices, keep bool) *driver.Result 
 		case "edit-h":
 			s := &w.st[st.Pkg]
 			path := filepath.Join(w.pkgDir(st.Pkg), "_wrap", "w.h")
+			nested := st.Arg%2 == 1 // the header in the sub-directory, which w.h includes
+			if nested {
+				path = filepath.Join(w.pkgDir(st.Pkg), "_wrap", "inc", "v.h")
+			}
 			before, _ := os.Stat(path)
-			s.hVal = (s.hVal + 3) % 10 // one digit: same size
-			w.write(path, fmt.Sprintf("#define HOFF %d\n", s.hVal))
+			if nested {
+				s.hSub = (s.hSub + 3) % 10 // one digit: same size
+				w.write(path, fmt.Sprintf("#define HSUB %d\n", s.hSub))
+				res.Probes["nested-header-edits"]++
+			} else {
+				s.hVal = (s.hVal + 3) % 10
+				w.write(path, fmt.Sprintf("#include \"inc/v.h\"\n#define HOFF (%d + HSUB)\n", s.hVal))
+			}
 			after, _ := os.Stat(path)
 			sameMtime = before != nil && after != nil && before.Size() == after.Size() && before.ModTime().Equal(after.ModTime())
 			lastEdit = st.K
 			res.Probes["header-edits"]++
-			w.logf("step %d: edit the header %s's C file includes -> HOFF %d (same mtime+size: %v)", si, sc.Pkgs[st.Pkg].Name, s.hVal, sameMtime)
+			w.logf("step %d: edit the header %s's C file includes (in a sub-directory: %v) -> HOFF %d+%d (same mtime+size: %v)", si, sc.Pkgs[st.Pkg].Name, nested, s.hVal, s.hSub, sameMtime)
 		case "repro":
 			a, la := w.irBuild(1)
 			b, lb := w.irBuild(2)
